@@ -164,10 +164,38 @@ pub struct Snapshot {
 thread_local! {
     static TOKEN_READS: Cell<u64> = Cell::new(0);
     static DATA_SCAN_TOKENS: Cell<u64> = Cell::new(0);
+    static TOKEN_READ_LIMIT: Cell<u64> = Cell::new(u64::MAX);
 }
 
 pub(crate) fn count_token_read() {
-    TOKEN_READS.with(|counter| counter.set(counter.get().wrapping_add(1)));
+    let reads = TOKEN_READS.with(|counter| {
+        counter.set(counter.get().wrapping_add(1));
+        counter.get()
+    });
+    // A logical-step watchdog for the monitoring harness: a host call that never
+    // hands control back keeps reading tokens, so it is cut off here (by a panic the
+    // harness catches) instead of by a wall-clock timeout.
+    if reads > TOKEN_READ_LIMIT.with(|limit| limit.get()) {
+        TOKEN_READ_LIMIT.with(|limit| limit.set(u64::MAX));
+        panic!("verif-hooks: token-read budget of one host call exceeded");
+    }
+}
+
+/// Allow at most `budget` further token-cursor reads on this thread (`None` lifts the limit).
+pub fn set_token_read_budget(budget: Option<u64>) {
+    let limit = match budget {
+        Some(budget) => TOKEN_READS.with(|counter| counter.get()).saturating_add(budget),
+        None => u64::MAX,
+    };
+    TOKEN_READ_LIMIT.with(|l| l.set(limit));
+}
+
+/// `RND(argument)` evaluated on a generator in the given internal state, through the
+/// same dispatch the language uses: returns (state afterwards, value or error).
+pub fn rng_rnd(state: u64, argument: f64) -> (u64, Result<f64, ()>) {
+    let mut rng = Rng::new(state);
+    let result = rng.rnd(argument).map_err(|_| ());
+    (rng.verif_state(), result)
 }
 
 pub(crate) fn count_data_scan_token() {
